@@ -36,7 +36,7 @@ pub struct Case {
 
 pub struct C02;
 
-fn input(big: bool) -> BoxedStrategy<In> {
+pub fn input(big: bool) -> BoxedStrategy<In> {
     let connack_ok = gen::connack(big, Just(0u8).boxed(), false);
     let connack_err = gen::connack(
         big,
@@ -59,6 +59,22 @@ fn input(big: bool) -> BoxedStrategy<In> {
         3 => gen::server_disconnect(big, prop::sample::select(rc::SERVER_DISCONNECT_REASONS).boxed()).prop_map(In::Disconnect),
     ]
     .boxed()
+}
+
+pub fn packet_of(i: &In) -> (rc::Packet, &'static str) {
+    match i {
+        In::Connack { pkt, .. } => (rc::Packet::Connack(pkt.clone()), "connack"),
+        In::Auth { pkt, .. } => (rc::Packet::Auth(pkt.clone()), "auth"),
+        In::Suback(a) => (rc::Packet::Suback(a.clone()), "suback"),
+        In::Unsuback(a) => (rc::Packet::Unsuback(a.clone()), "unsuback"),
+        In::Puback(a) => (rc::Packet::Puback(a.clone()), "puback"),
+        In::Pubrec(a) => (rc::Packet::Pubrec(a.clone()), "pubrec"),
+        In::Pubcomp(a) => (rc::Packet::Pubcomp(a.clone()), "pubcomp"),
+        In::Publish(p) => (rc::Packet::Publish(p.clone()), "publish"),
+        In::Pubrel(a) => (rc::Packet::Pubrel(a.clone()), "pubrel"),
+        In::Pingresp => (rc::Packet::Pingresp, "pingresp"),
+        In::Disconnect(d) => (rc::Packet::Disconnect(d.clone()), "disconnect"),
+    }
 }
 
 fn feed_chunked(w: &mut World, bytes: Vec<u8>, chunk: u16) {
